@@ -36,7 +36,12 @@ Inductive case :=
 | KSrc (tags : list (bytes * bytes)) (pre : nat) (tail : list event) (ops : list sop) (observed : list devent)
 (* stale: the last events written (readable, acknowledged) before the pipe was created, whose WriteEvent was still
    in the channel at that moment *)
-| KStale (tags : list (bytes * bytes)) (pre : nat) (stale : list event) (ops : list sop) (observed : list devent).
+| KStale (tags : list (bytes * bytes)) (pre : nat) (stale : list event) (ops : list sop) (observed : list devent)
+(* re-creation: a pipe of the same name existed before (created when the source held pre1 readable events + tail1, driven
+   through ops1, which end with its deletion and the writes made while no pipe of that name existed); the pipe was created
+   again when the source held pre2 events (all readable) and driven through ops2; observed = what the destination gained
+   for this source since the re-creation *)
+| KRe (tags : list (bytes * bytes)) (pre1 : nat) (tail1 : list event) (ops1 : list sop) (pre2 : nat) (ops2 : list sop) (observed : list devent).
 
 Definition model_dst (tags : list (bytes * bytes)) (pre : nat) (tail : list event) (ops : list sop) : list devent :=
   dst (run code_applies_filter tags (init (repeat dummy pre ++ tail) pre) (flat_map sched_of ops)).
@@ -45,8 +50,17 @@ Definition model_dst_stale (tags : list (bytes * bytes)) (pre : nat) (stale : li
   dst (run code_applies_filter tags (init_stale (repeat dummy pre ++ stale) [(pre, pre + length stale)])
          ((LDeliver :: works (length stale + 6)) ++ flat_map sched_of ops)).
 
+Definition model_state (tags : list (bytes * bytes)) (pre : nat) (tail : list event) (ops : list sop) : st :=
+  run code_applies_filter tags (init (repeat dummy pre ++ tail) pre) (flat_map sched_of ops).
+
+Definition model_dst_re (tags : list (bytes * bytes)) (s1 : st) (ops2 : list sop) : list devent :=
+  dst (run code_applies_filter tags (recreate s1) (flat_map sched_of ops2)).
+
 Definition check (c : case) : bool :=
   match c with
+  | KRe tags pre1 tail1 ops1 pre2 ops2 observed =>
+      let s1 := model_state tags pre1 tail1 ops1 in
+      (length (log s1) =? pre2) && negb (alive s1) && list_eqb devent_eqb (model_dst_re tags s1 ops2) observed
   | KSrc tags pre tail ops observed => list_eqb devent_eqb (model_dst tags pre tail ops) observed
   | KStale tags pre stale ops observed => list_eqb devent_eqb (model_dst_stale tags pre stale ops) observed
   end.
